@@ -338,8 +338,28 @@ def gen_plan(seed: int, mode: str, scale: int = 1):
                 ms = p.messages()
                 if ms:
                     filt = rng.sample(ms, rng.randint(1, min(3, len(ms))))
-                    if mode == "c09" and rng.chance(0.2):
-                        filt.append("NoSuchMessage")
+                    if rng.chance(0.35):
+                        # unusual but plausible spellings of a message filter
+                        text = p.files.get(p.main, "")
+                        pm = re.search(r"^proto\s+(\w+)", text, re.M)
+                        nested = re.findall(r"^\s+message\s+([A-Za-z_]\w*)", text, re.M)
+                        extra = [
+                            "NoSuchMessage",
+                            "",
+                            filt[0],  # duplicate
+                            filt[0].lower(),
+                            (pm.group(1) if pm else "x") + "." + filt[0],
+                            filt[0] + "." + (nested[0] if nested else "Inner"),
+                            (nested[0] if nested else "Inner"),
+                            "A.B.C." + filt[0],
+                            filt[0] + ".",
+                            "." + filt[0],
+                            " " + filt[0] + " ",
+                            filt[0] + "'",
+                        ]
+                        filt.append(rng.choice(extra))
+                        if rng.chance(0.3):
+                            filt = [rng.choice(extra)]
             if rng.chance(0.5):
                 endian = rng.choice(["little", "big", "both"])
         return lang, opt, filt, endian
